@@ -36,6 +36,27 @@ def make_query(rng, st):
         if rng.random() < 0.7:
             sc["path"] = [rng.choice([["gwc"], ["wc"], ["iwc"], ["rec"], ["s", None, None, None], ["t", ["a", 0, "b", 1]]])] + \
                 [x for x in sc["path"] if x[0] != "rec"][:2]
+    if st.get("guarded") and rng.random() < st["guarded"]:
+        # a guarded conjunction / disjunction: an earlier argument protects a later one from values it cannot
+        # handle ("a" > 3 raises), and the arguments decide differently from node to node
+        ks = rng.sample(gen.KEYS, 4)
+        rows = [{"kind": "num", "v": 5}, {"kind": "num", "v": 1}, {"kind": "txt", "v": "a"}, {"kind": "num", "v": 7}]
+        rng.shuffle(rows)
+        doc = dict(zip(ks, rows))
+        guard = ["c", [["k", "kind"]], "eq", gen.enc("num")]
+        test = ["c", [["k", "v"]], rng.choice(["gt", "ge", "lt"]), gen.enc(3)]
+        if rng.random() < 0.5:
+            pred = ["all", [guard, test] + ([["p", [["k", "v"]]]] if rng.random() < 0.3 else [])]
+        else:
+            pred = ["any", [["c", [["k", "kind"]], "ne", gen.enc("num")], test]]
+        sc["doc"] = gen.enc(doc)
+        sc["path"] = [rng.choice([["wc"], ["gwc"]]), ["f", pred]] + rng.choice([[], [["k", "v"]]])
+        sc.pop("src", None)
+        sc.pop("share", None)
+    if st.get("par_filter_par") and rng.random() < st["par_filter_par"]:
+        # a candidate that was reached by a parent step, filtered, then climbed from again
+        keep = ["f", rng.choice([["all", []], ["not", ["p", [["k", "nope"]]], []], ["tab", "kind", [["dict", ["v", 1]], ["list", ["v", "y"]]], ["v", 0]]])]
+        sc["path"] = [x for x in sc["path"] if x[0] != "rec"][:3] + [["par"]] + [keep] * rng.choice([1, 1, 2]) + [["par"]] * rng.choice([1, 2])
     if st.get("climb_in_has") and rng.random() < st["climb_in_has"]:
         # parent steps hidden inside a filter of a has-path: they climb above the candidate of the outer filter
         key = rng.choice(gen.KEYS)
@@ -278,9 +299,10 @@ def run_corpus(ctx, cfg):
 
 # ------------------------------------------------------------------ registry
 
-def Q(profile="all", pred="mixed", apis=None, src=None, maxlen=5, nexts=None, share=1.0, untraced=0.0, up=0.0, climb_in_has=0.0):
+def Q(profile="all", pred="mixed", apis=None, src=None, maxlen=5, nexts=None, share=1.0, untraced=0.0, up=0.0, climb_in_has=0.0,
+      par_filter_par=0.0, guarded=0.0):
     return dict(kind="q", profile=profile, pred_profile=pred, apis=apis, src=src, maxlen=maxlen, nexts=nexts, share=share,
-                untraced=untraced, up=up, climb_in_has=climb_in_has)
+                untraced=untraced, up=up, climb_in_has=climb_in_has, par_filter_par=par_filter_par, guarded=guarded)
 
 
 ALL_APIS = ["find_matches", "find", "get_match", "get"]
@@ -293,7 +315,7 @@ def register(pid, **kw):
     kw.setdefault("observables", ["results"])
     kw.setdefault("oracles", [])
     kw.setdefault("extra", [])
-    kw.setdefault("n_quick", 3000)
+    kw.setdefault("n_quick", 5000)
     kw.setdefault("n_thorough", 120000)
     PROPS[pid] = kw
 
@@ -384,10 +406,11 @@ register("C02", streams=[Q("rec", apis=["find_matches"], src=False, maxlen=5)],
          observables=["results"], oracles=[oracles.reiter_oracle, oracles.big_iteration_oracle_for({"kind": "rec", "n": 180000}), oracles.reuse_oracle],
          rule="documents with ragged depth and empty containers x paths with >=1 recursive step mixed with all other step kinds; non-trivial as C01")
 register("C03", streams=[Q("filter", pred="custom", apis=["find_matches"], src=False, share=2), Q("filter", pred="mixed", apis=["find_matches"], src=False, share=1),
-                         Q("filterpar", pred="custom", apis=["find_matches"], src=None, share=1)],
+                         Q("filterpar", pred="custom", apis=["find_matches"], src=None, share=1, par_filter_par=0.4),
+                         Q("filter", pred="below", apis=["find_matches"], src=False, share=1)],
          observables=["calls", "results_exc"],
          rule="paths with filters in any position (root, after wildcard/rec/slice, stacked, followed by steps); predicates are decision tables over the candidate returning arbitrary truthy/falsy objects or raising, neighbour lookups, and has-family predicates; compared: results, per-candidate call log (path, data_name, data, parent), exception cause chain")
-register("C04", streams=[Q("filter", pred="has", apis=["find_matches"], src=False, share=5, untraced=0.4),
+register("C04", streams=[Q("filter", pred="has", apis=["find_matches"], src=False, share=5, untraced=0.4, guarded=0.04),
                          Q("filter", pred="below", apis=["find_matches"], src=False, share=1, untraced=0.4)],
          observables=["fncalls", "results_exc"],
          rule="has/has_not/has_all/has_any trees (depth<=3) over relative paths incl. wildcards, recursion, parent steps, nested filters; six operators; constants of every JSON kind; conversion chains of length 0-3 that raise on part of the data; compared: results, conversion call order, exception chain")
@@ -441,7 +464,7 @@ register("C15", oracles=[oracles.reuse_oracle, oracles.spelling_oracle, oracles.
          generated=["Reserved"],
          rule="derivation DAGs over path / pathd: attribute and item steps of every kind (incl. reserved attribute names, odd builder attributes, unsupported indices), siblings derived before and after their shared prefix was rendered or evaluated, equivalent spellings derived late from one prefix; compared: str()/repr() of every expression, results of evaluating it on random documents (keys with '-' and '_'), errors")
 
-register("C06", streams=[Q("all", apis=ALL_APIS, src=None, share=1)], n_quick=1500, n_thorough=60000,
+register("C06", streams=[Q("all", apis=ALL_APIS, src=None, share=1, guarded=0.06)], n_quick=1500, n_thorough=60000,
          observables=["results_exc"], oracles=[oracles.snapshot_oracle, oracles.reuse_oracle], generated=["Stores"],
          rule="read-only calls (find / find_matches / get_match / get, traced and untraced, from a document or a Match, any has-family predicates) repeated 2-5 times on the same document and the same path object: deep snapshot (container identities, key order, list contents) before = after every call, the path renders like a never-evaluated twin, later evaluations select what the first did; plus the store table regenerated from the source")
 register("C16", streams=[Q("all", apis=ALL_APIS, src=None, share=1)], n_quick=1500, n_thorough=60000,
